@@ -87,8 +87,8 @@ CHECKS["C01"] = {
     "level": "proof",
     "quick_fs": ["default"],
     "thorough_fs": ["default", "checks", "no_copy_impls", "both"],
-    "technique": "abstract interpretation of MIR (affine forms + linear inequalities, loop summaries, ghost accounting) for 5 word sizes; taint/def-use rules for endianness pairing and backend use",
-    "claim": "Decides necessary structural and numeric conditions of the canonical image, not the bit values themselves: (W1) only write_word/flush ever touch the backend, so delivered words are never altered; (W2) every word handed to the backend was last converted with to_be in BE code / to_le in LE code (host-independent; invisible to tests on a little-endian host); (W3) Drop picks the flush routine of the stream's endianness, into_inner flushes exactly once before moving the backend out; (W4) for W in {u8,u16,u32,u64,u128}: every overflow/shift/bounds assert, call precondition and reachable panic of write_bits/write_unary/flush is discharged under the documented preconditions and the invariant 1 <= space_left <= W is re-established at every return; (W5) ghost accounting: write_bits returns n and appends exactly n bits, write_unary v+1, flush returns the pending count, leaves the buffer empty (idempotence) and pads with exactly one word iff bits were pending. Undecided: that the bits inside the valid window are the right bits in the right order.",
+    "technique": "abstract interpretation of MIR for 5 word sizes: affine forms + linear inequalities with loop summaries and ghost accounting; a bit-sequence domain (each word = list of slices of symbolic sources with affine bounds, LP-ordered) compared with the stream specification; taint/def-use rules for endianness pairing and backend use",
+    "claim": "Decides necessary structural and numeric conditions of the canonical image, not the bit values themselves: (W1) only write_word/flush ever touch the backend, so delivered words are never altered; (W2) every word handed to the backend was last converted with to_be in BE code / to_le in LE code (host-independent; invisible to tests on a little-endian host); (W3) Drop picks the flush routine of the stream's endianness, into_inner flushes exactly once before moving the backend out; (W4) for W in {u8,u16,u32,u64,u128}: every overflow/shift/bounds assert, call precondition and reachable panic of write_bits/write_unary/flush is discharged under the documented preconditions and the invariant 1 <= space_left <= W is re-established at every return; (W5) ghost accounting: write_bits returns n and appends exactly n bits, write_unary v+1, flush returns the pending count, leaves the buffer empty (idempotence) and pads with exactly one word iff bits were pending; (W6) CONTENT, in the bit-sequence domain: with P the pending bits at entry and F the field appended by the call (write_bits: bits [0, n) of value whatever its higher bits; write_unary: v zeros and a one; flush: zero padding to the boundary), on every path and for every W every word handed to the backend is exactly the next W bits of P ++ F in stream order (BE words fill from the most significant bit, LE from the least) and the buffer keeps exactly the remaining bits where the next call expects them - i.e. the canonical image of the sequence of writes, word by word. Together with W2 (byte order of each word) this is the byte image up to the backend. Undecided: copy_from and io::Write at the content level (C08/C12 have their own clauses), the backends' own storage (C11, C13).",
     "note": "Trusted: rustc MIR, exporter, contract table, LP entailment. Assumptions (lemmas.json) are listed in the evidence and are never counted as discharged.",
     "explanation": "E3/E4 obligations + structural rules",
 }
@@ -98,8 +98,8 @@ CHECKS["C02"] = {
     "level": "proof",
     "quick_fs": ["default"],
     "thorough_fs": ["default", "checks", "no_copy_impls", "both"],
-    "technique": "abstract interpretation of MIR (affine + linear inequalities, loop summaries, ghost position) for 4 word sizes + unbuffered reader; taint rule for byte-order conversion of fetched words",
-    "claim": "Necessary conditions of 'readers return exactly the stream's bits': (R1) every word fetched from the backend in BE code goes through to_be (LE: to_le) before any other use; (R2) for W in {u8..u64} and the unbuffered reader: all asserts, shift amounts (incl. the double-shift idioms), call preconditions and panics of refill/peek/skip_after_peek/read_bits/read_unary/skip_bits are discharged under the documented preconditions and 0 <= bits_in_buffer < 2W is re-established at every return; (R3) ghost position pos = W*word_pos - bits_in_buffer (unbuffered: bit_index) moves by exactly n for read/skip, 0 for peek (so peeking is repeatable), result+1 for read_unary on every successful path, through multi-word slow paths and loops; (R4) Clone copies every field. Undecided: the value of the returned bits; position arithmetic is assumed not to overflow for streams shorter than 2^64 bits (lemmas L1-L3).",
+    "technique": "abstract interpretation of MIR for 4 word sizes + unbuffered reader: affine + linear inequalities with loop summaries and ghost position; a bit-sequence domain (each word = list of slices of symbolic sources with affine bounds, LP-ordered) compared with the stream specification; taint rule for byte-order conversion of fetched words",
+    "claim": "Necessary conditions of 'readers return exactly the stream's bits': (R1) every word fetched from the backend in BE code goes through to_be (LE: to_le) before any other use; (R2) for W in {u8..u64} and the unbuffered reader: all asserts, shift amounts (incl. the double-shift idioms), call preconditions and panics of refill/peek/skip_after_peek/read_bits/read_unary/skip_bits are discharged under the documented preconditions and 0 <= bits_in_buffer < 2W is re-established at every return; (R3) ghost position pos = W*word_pos - bits_in_buffer (unbuffered: bit_index) moves by exactly n for read/skip, 0 for peek (so peeking is repeatable), result+1 for read_unary on every successful path, through multi-word slow paths and loops; (R4) Clone copies every field; (R7) CONTENT, in the bit-sequence domain, for BufBitReader over u8..u64, both endiannesses, every path: with Bf the buffered bits and w_0, w_1, ... the words fetched by the call, U = Bf ++ w_0 ++ w_1 ...; read_bits(n) and peek_bits(n) return exactly the first n bits of U, zero-extended (BE: first stream bit most significant; LE: least significant), and after read_bits / peek_bits / skip_bits / skip_bits_after_peek / read_unary the buffer holds exactly the rest of U inside its valid window and zeros outside. Undecided: the content returned by the unbuffered BitReader (R2/R3/R6 only) and by copy_to; position arithmetic is assumed not to overflow for streams shorter than 2^64 bits (lemmas L1-L3).",
     "note": "Trusted: rustc MIR, exporter, contracts, ghost model of WordRead/WordSeek, LP entailment; lemmas.json entries are assumptions.",
     "explanation": "E3/E4 obligations + structural rules",
 }
